@@ -64,7 +64,13 @@ func c05Gen(tier string, seed uint64, i int) any {
 		}
 		return &c05Case{Mode: "ctrl", Recipe: gen.ControllerMessage(r, kind, gen.MsgOpt{DecodableOnly: true, NoTyped: true})}
 	case 2, 3:
-		return &c05Case{Mode: "switch", Recipe: gen.SwitchMessage(r, gen.SwitchKinds[(i/10)%len(gen.SwitchKinds)])}
+		m := gen.SwitchMessage(r, gen.SwitchKinds[(i/10)%len(gen.SwitchKinds)])
+		if m.K == "features_reply" { // the library's SwitchFeatures carries a trailing port list (not on an OpenFlow 1.3 wire): round trip it too
+			for n := r.Pick(0, 1, 2, 3, 5); n > 0; n-- {
+				m.Add("ports", gen.Port(r))
+			}
+		}
+		return &c05Case{Mode: "switch", Recipe: m}
 	case 4, 5:
 		ks := gen.ActionKinds()
 		return &c05Case{Mode: "action", Recipe: gen.ActionOfKind(r, ks[(i/10)%len(ks)], ao), Tail: tail()}
